@@ -746,7 +746,8 @@ func c01EmitHandle(c *core.Ctx, r *core.Report, arms []tagArm) {
 			})
 		}
 	}
-	r.Floor("HANDLE", "dictionary candidate sites in doLogEventFilling", nDictCalls, 4)
+	r.Floor("HANDLE", "dictionary candidate sites in doLogEventFilling", nDictCalls, 3)
+	checkDictionaryOffer(c, r, arms)
 }
 
 // ---------------------------------------------------------------------------------------------- account
@@ -984,11 +985,17 @@ func c01Account(c *core.Ctx, r *core.Report) {
 					j := i + 1
 					for ; j < len(list); j++ {
 						r2, l2, ok2 := cbufAppend(ac, list[j])
-						if !ok2 || r2 != recv {
-							break
+						if ok2 && r2 == recv {
+							nSites++
+							total = total.add(l2, 1)
+							continue
 						}
-						nSites++
-						total = total.add(l2, 1)
+						// statements that do not touch this column buffer or its cursor (logging, other bookkeeping)
+						// may sit between the append and the cursor update
+						if !mentions(list[j], recv+".cbuf") {
+							continue
+						}
+						break
 					}
 					grp++
 					nGroups++
@@ -1833,4 +1840,66 @@ func skipRecordsError(fn *ssa.Function, loop *core.Loop, b *ssa.BasicBlock) bool
 		}
 	}
 	return true
+}
+
+// mentions: the statement's source contains a selector expression that renders as prefix (or extends it).
+func mentions(st ast.Stmt, prefix string) bool {
+	found := false
+	ast.Inspect(st, func(n ast.Node) bool {
+		if sel, ok := n.(*ast.SelectorExpr); ok {
+			if strings.HasPrefix(types.ExprString(sel), prefix) {
+				found = true
+			}
+		}
+		return !found
+	})
+	return found
+}
+
+// checkDictionaryOffer (shared by C01 and C03): every arm of doLogEventFilling that appends a record's value
+// also offers it to the dictionary encoder.
+func checkDictionaryOffer(c *core.Ctx, r *core.Report, arms []tagArm) {
+	if arms == nil {
+		arms = collectTagArms(c)
+	}
+	// every arm of doLogEventFilling that appends a record's value also offers it to the dictionary encoder:
+	// the dictionary block lists records per word and the reader assumes every record of the block is listed
+	seenArm := map[token.Pos]bool{}
+	nArm := 0
+	for _, a := range arms {
+		if a.fn != "writer.SegStore.doLogEventFilling" || a.inDict || seenArm[a.pos] {
+			continue
+		}
+		seenArm[a.pos] = true
+		appends, offers := false, false
+		nested := false
+		for _, st := range a.body {
+			ast.Inspect(st, func(n ast.Node) bool {
+				call, ok := n.(*ast.CallExpr)
+				if !ok {
+					return true
+				}
+				if sel, ok := call.Fun.(*ast.SelectorExpr); ok {
+					if sel.Sel.Name == "checkAddDictEnc" {
+						offers = true
+					}
+					if strings.HasPrefix(sel.Sel.Name, "Append") {
+						if bs, ok := sel.X.(*ast.SelectorExpr); ok && bs.Sel.Name == "cbuf" {
+							appends = true
+						}
+					}
+				}
+				return true
+			})
+		}
+		_ = nested
+		if !appends {
+			continue // an inner arm that only classifies the value
+		}
+		nArm++
+		r.Check(offers, "HANDLE", "writer.SegStore.doLogEventFilling:"+strings.TrimPrefix(strings.Join(a.tags, "+"), "VALTYPE_")+"-value-is-offered-to-the-dictionary", c.Pos(a.pos),
+			"the arm that appends the value also registers the record with the column's dictionary",
+			"this arm appends the record's value but does not register the record with the column's dictionary: in a dictionary-encoded block the record is listed under no word, the reader's per-record table keeps word 0 or a stale entry of an earlier block, and the event comes back with another event's value")
+	}
+	r.Floor("HANDLE", "value-appending arms of doLogEventFilling", nArm, 4)
 }
